@@ -54,6 +54,32 @@ T = {
             "2/C20", "object identity = address + serial; logging allocator / tracker are trusted"),
 }
 
+T.update({
+    "C02": ("explore", "model_checking", BFS + "; M-align/M-inside/M-disjoint, plus an exhaustive single-step request sweep (sizes x counts x alignments x 3 canonical positions) on every allocator kind",
+            "Alignment, size and containment are checked on every transition of the explorations and on every request of the exhaustive sweep in fence and non-fence configurations.",
+            "2/C02", TRUST),
+    "C16": ("explore", "model_checking", BFS + " where every applicable invalid call is executed at every reachable state under containment (must end in the invalid-pointer handler or abort with memory and counters unchanged); DFS over all allocate/return sequences on the LIFO block sources; M-noreport on all valid histories",
+            "Positive and negative direction: every covered invalid release/unwind/return at every state of the bounded configurations is reported or stops the program before anything changes; no valid history of any suite is ever reported.",
+            "2/C16", TRUST + "; a contained abort (assertion/unreachable) counts as 'stops the program'"),
+    "C18": ("explore", "model_checking", BFS + "; M-counters/M-maxima (exact capacity deltas, announced next block size == requested size, no request above a reported maximum succeeds), plus the exhaustive min_block_size grid (node size x count x pool type, byte sizes for stacks)",
+            "Counter deltas are compared with the model on every transition; min_block_size is decided on the full grid the property names (thorough) by constructing the pool and allocating n nodes without growth.",
+            "2/C18", TRUST),
+    "C09": ("compose", "exploration", "exhaustive enumeration of wrapper compositions (depth 2 quick / 3 thorough) x request shapes x operation sequences over instrumented leaf allocators and trackers",
+            "Leaf call logs decide forwarding and release parameters for every enumerated composition, shape and short sequence; compile probes decide 'forwards every request' for compositions that must compile.",
+            "2/C09", "instrumented leaves/trackers are the trusted model; compile time bounds the composition depth"),
+    "C10": ("compose", "exploration", "stateless DFS over all container operation sequences up to a depth on three containers bound to two instrumented allocator objects, differential against std::allocator; exhaustive element-type grid for the node size constants",
+            "Every sequence up to the depth for every container family; per-allocator-object logs decide where each node is released; node size constants regenerated from /repo/cmake on every run.",
+            "2/C10", "libstdc++ of this image; instrumented RawAllocator logs are trusted"),
+    "C11": ("compose", "exploration", "exhaustive enumeration of joint layouts x additional sizes x element counts x operation sequences over two joint_ptr slots on two instrumented upstream allocators",
+            "Every layout/size/count combination of the grid and every operation sequence up to the depth; the instrumented upstream with guard bytes decides containment, alignment, single release.",
+            "2/C11", "instrumented upstream is trusted"),
+    "C17": ("enum", "exploration", "exhaustive input enumeration: every node size x alignment x byte offset of both fences x byte value on the four low-level allocators with a counting overflow handler; bounded exhaustive walk for fill patterns of arena allocators",
+            "Every single-byte fence corruption of the stated grid must be reported exactly once with the exact address; in-bounds writes never; fill patterns checked on every returned and released range.",
+            "2/C17", "the allocator's own fence layout is read from lowlevel_allocator"),
+})
+
+AGENT_BUILT = {"C09", "C10", "C11", "C13", "C17", "C19", "C20"}
+
 NOT_YET = {
     "C02": "check under construction in this round (explorer monitors exist; input sweep being built) - will be claimed when its harness is finished",
     "C08": "check under construction in this round",
@@ -72,7 +98,7 @@ def main():
     props = [json.loads(l)["id"] for l in open(os.path.join(VERIF, "properties.jsonl"))]
     cks = []
     for pid in props:
-        if pid in T and pid in checks.CHECKS:
+        if pid in T and pid in checks.CHECKS and (pid not in AGENT_BUILT or os.path.exists(os.path.join(VERIF, "design", f"notes_{pid}.md"))):
             eng, cat, tech, text, ref, note = T[pid]
             cks.append({
                 "property_id": pid,
